@@ -225,6 +225,12 @@ def is_one_euclidean(instance: OrdinalInstance):
 
         # number of voters
         n = len(instance.orders)
+        if n == 1:
+            # a single order is always 1-Euclidean: alternatives at increasing distance from the voter
+            y = {0: 0.0}
+            for rank, c in enumerate(v_1):
+                y[c + n - 1] = float(rank + 1)
+            return True, y
         gamma = dict()
 
         # walk through the alternatives
